@@ -1495,7 +1495,11 @@ def build_system(am, case):
     prop = OrderedDict(atype=np.array(case['atype'], dtype=int), pos=np.array(case['spos'], dtype=float).reshape(-1, 3))
     for name, kind, vals in case['props']:
         prop[name] = np.array(vals, dtype={'f': float, 'i': int, 's': str, 'b': bool}[kind])
-    sysm = am.System(atoms=am.Atoms(prop=prop), box=am.Box(vects=case['vects'], origin=case['origin']),
+    # `length_scale`: the same cell written in another length unit (every Cartesian number times an exact power of two /
+    # of ten; the relative coordinates - the crystal - are the same)
+    ls = float(case.get('length_scale', 1.0))
+    sysm = am.System(atoms=am.Atoms(prop=prop), box=am.Box(vects=np.array(case['vects'], dtype=float) * ls,
+                                                            origin=np.array(case['origin'], dtype=float) * ls),
                      pbc=case.get('pbc', (True, True, True)), scale=True, symbols=case.get('symbols'))
     sysm._c04 = case
     if case.get('history'):
@@ -2675,7 +2679,9 @@ def _oracle_rotate(ctx, am, sysm, fam, spos, U, d, arg, form, accepted, key, tol
         ctx.extra['oracle_rotate_cleanup_bound_cases'] = ctx.extra.get('oracle_rotate_cleanup_bound_cases', 0) + 1
     T = np.asarray(T, dtype=float)
     if T.shape != (3, 3) or not (np.allclose(T @ T.T, I3, atol=1e-9) and abs(np.linalg.det(T) - 1) < 1e-9):
-        ctx.violate(key + ':transform', f'{what}: returned transform {T.tolist()} is not a proper rotation', replay)
+        ctx.violate(key + ':transform', f'{what}: returned transform {T.tolist()} is not a proper rotation'
+                    + (f' (det {float(np.linalg.det(T)):.6g}: through an improper transform the new cell holds the mirror '
+                       f'image of the crystal)' if T.shape == (3, 3) else ''), replay)
         return
     # "a re-oriented cell is LAMMPS-compatible with every atom inside it" - evaluated on the numbers of the result (cell
     # vectors; relative coordinates by numpy from the Cartesian positions, not by the Box under test)
@@ -2817,6 +2823,8 @@ def search(ctx, broken):
     _search_conversions(ctx, rng, am)
     _search_p2c_direct(ctx, rng, am, scale)
     _search_oriented(ctx, am, scale)
+    _search_scales(ctx, am, scale)
+    _search_site_tolerance(ctx, am)
 
 
 # ----------------------------------------------------------------------------------------------
@@ -3508,7 +3516,9 @@ def build_conv(am, case):
     prop = OrderedDict(atype=np.array(case['atype'], dtype=int), pos=np.array(case['stored'], dtype=float))
     prop[nq] = np.array(case['q'], dtype=float)
     prop[nt] = np.array(case['tag'], dtype=int)
-    conv = am.System(atoms=am.Atoms(prop=prop), box=am.Box(vects=case['vects'], origin=case['origin']), scale=True,
+    ls = float(case.get('length_scale', 1.0))       # the cell written in another length unit (see build_system)
+    conv = am.System(atoms=am.Atoms(prop=prop), box=am.Box(vects=np.array(case['vects'], dtype=float) * ls,
+                                                            origin=np.array(case['origin'], dtype=float) * ls), scale=True,
                      pbc=case.get('pbc', (True, True, True)), symbols=case.get('symbols'))
     for op in case.get('history', []):
         apply_op(conv, op)
@@ -3873,6 +3883,144 @@ def _search_oriented(ctx, am, scale=1):
             _check_p2c_undone(ctx, sysm, spos, prim2, T3 @ T2, what, replay, extra_tol=_p2c_cleanup(np, sysm, U))
 
 
+# ----------------------------------------------------------------------------------------------
+# length scales: the same cell written in metres / centimetres / micrometres / ... (every Cartesian number times an exact
+# power of two or of ten): nothing supersize / rotate / the conversions decide may depend on the unit the lengths are in
+# ----------------------------------------------------------------------------------------------
+LENGTH_SCALES = ([10.0 ** k for k in (-12, -10, -9, -8, -7, -6, -5, -4, -3, -2, -1, 1, 2, 3, 4, 6, 8, 10, 12)]
+                 + [2.0 ** k for k in (-40, -33, -27, -20, -13, -7, 7, 13, 20, 27, 33, 40)])
+
+
+def _scaled_copy(am, sysm, ls):
+    """the system of a generated case again, with every length times `ls` (no history: those hold absolute lengths)."""
+    case = dict(sysm._c04, history=[], length_scale=ls)
+    return build_system(am, case)
+
+
+def _search_scales(ctx, am, scale=1):
+    """class "scales" x "handedness": cells of every family (left-handed ones included) at length scales 1e-12 .. 1e+12,
+    re-expressed along integer vectors of POSITIVE and NEGATIVE determinant, replicated, and converted; decided by the
+    same exact oracle as at the scale of one (every tolerance of it is relative: rounding bound of the float data), which
+    includes: the returned transform is a proper rotation (det +1), the new cell's vectors are the requested lattice
+    vectors turned by it (third one reversed for a left-handed request) and every atom maps through it onto an original
+    one - so a mirror image of the crystal is not accepted. (Own random stream.)"""
+    np = _np()
+    rng = random.Random(ctx.seed * 15485863 + 604)
+    I3 = np.eye(3)
+    scales = list(LENGTH_SCALES)
+    rng.shuffle(scales)
+    nrot = ctx.n(72, 400) * scale
+    for it in range(nrot):
+        ls = scales[it % len(scales)]
+        if it < 2 * len(FIXED_U):
+            U = [list(r) for r in FIXED_U[it % len(FIXED_U)]]
+        else:
+            U = gen_U(rng, maxdet=5)[0]
+        if it % 2 == 1 and _det3(U) > 0 and U != FIXED_U[0]:
+            # every other case: a NEGATIVE determinant (two of the requested vectors exchanged)
+            U = [U[1], U[0], U[2]]
+        d = _det3(U)
+        extra = near_face_atoms(rng, U) if it % 3 == 0 else []
+        base, fam, spos = gen_system(rng, am, extra=extra, far=it % 4 == 1)
+        sysm = _scaled_copy(am, base, ls)
+        fam = f'{fam}, lengths x {ls!r}'
+        arg, form, accepted = gen_uvws_form(rng, U) if it % 5 == 4 else (U, 'int-list', True)
+        handed = ('left' if np.linalg.det(np.array(sysm._c04['vects'])) * d < 0 else 'right')
+        ctx.stats.case('oracle:rotate-scaled', (repr(ls), repr(np.asarray(arg).tolist()), repr(sysm._c04['vects']), tuple(spos)),
+                       sample={'op': 'rotate', 'length_scale': ls, 'family': fam, 'U': U, 'requested_vectors': handed + '-handed'})
+        ctx.extra.setdefault('scaled_rotate_requests', {'left': 0, 'right': 0})
+        ctx.extra['scaled_rotate_requests'][handed] += 1
+        _oracle_rotate(ctx, am, sysm, fam, spos, U, d, arg, form, accepted, 'rotate')
+        if it % 4 == 2:
+            sizes = gen_sizes(rng)
+            ns = [norm_size(x) for x in sizes]
+            what = f'supersize{sizes_repr(sizes)} ({fam} cell {sysm.box.vects.tolist()} at {sysm.box.origin.tolist()})'
+            replay = {'op': 'supersize', 'family': fam, 'case': sysm._c04, 'spos': [[float(x) for x in sp] for sp in spos],
+                      'sizes': [list(x) for x in ns]}
+            ctx.stats.case('oracle:supersize-scaled', (repr(ls), sizes_repr(sizes), repr(sysm._c04['vects']), tuple(spos)))
+            V0, o0 = sysm.box.vects.copy(), sysm.box.origin.copy()
+            try:
+                new = sysm.supersize(*sizes)
+            except Exception as e:  # noqa
+                ctx.violate('supersize:raises', f'{what} raised {type(e).__name__}: {e} for valid integer multipliers', replay)
+                continue
+            if _check_same_crystal(ctx, 'supersize', what, sysm, spos, new, I3, math.prod(h - l for l, h in ns), replay):
+                wantv = np.array([V0[i] * (ns[i][1] - ns[i][0]) for i in range(3)])
+                wanto = o0 + sum(V0[i] * ns[i][0] for i in range(3))
+                big = float(max(np.abs(wantv).max(), np.abs(wanto).max()))
+                if not (np.allclose(new.box.vects, wantv, rtol=0, atol=1e-9 * big)
+                        and np.allclose(new.box.origin, wanto, rtol=0, atol=1e-9 * big)):
+                    ctx.violate('supersize:box', f'{what}: box {new.box.vects.tolist()} at {new.box.origin.tolist()}, expected '
+                                f'the multiplied vectors {wantv.tolist()} at {wanto.tolist()}', replay)
+    # the conversions at those scales, conventional cells in every orientation / handedness. The absolute tolerances of
+    # conventional_to_primitive are documented options, handed over in the cell's own unit: atol (lattice-site test) and
+    # smallshift (primitive-cell cut) times the scale. (atol is also what the family test compares ANGLES with: for
+    # scales above one the family test is switched off - the documented switch - instead of being handed 1e-8 x scale
+    # degrees.) Storage 'plain' / 'far' / 'random'; no displaced crystals here (see docs: candidate
+    # C04-c2p-recentre-absolute-1e-8, the re-centring step's own fixed 1e-8).
+    for k, setting in enumerate(sorted(CONV_SITES) * ctx.n(2, 8)):
+        ls = scales[(5 * k + 3) % len(scales)]
+        orient = [None, 'lefthanded', 'rotated', 'mirror-rotated', 'permuted', 'lefthanded'][k % 6]
+        case = gen_conv_case(rng, am, setting, mode=rng.choice(['plain', 'far', 'random']), orient=orient)
+        case.update(op='conversion', call_setting=setting, check_basis=(k % 7 != 5), history=[], length_scale=ls,
+                    site_atol=1e-8 * ls, smallshift=[0.001 * ls] * 3)
+        if ls > 1:
+            case['check_family'] = False
+        else:
+            # (box origin on a lattice point for the small scales: the primitive cell then has its lattice-site atom exactly
+            # at its corner and the re-centring step of conventional_to_primitive - "exactly one atom within numpy's
+            # default 1e-8 length units of the corner is moved onto it", a fixed absolute distance that is a whole cell in
+            # metres - has nothing to move; rotate / supersize / p2c above run with any origin at every scale)
+            case['origin'] = [0.0, 0.0, 0.0]
+        ctx.stats.case('oracle:conversion-scaled', (setting, repr(ls), repr(case['stored']), repr(case['vects'])),
+                       sample={'op': 'c2p->p2c', 'setting': setting, 'family': case['family'], 'length_scale': ls,
+                               'orientation': orient or 'as generated'})
+        _run_conversion(ctx, am, case)
+    # primitive_to_conventional directly (it has no tolerance of its own) on scaled cells of either handedness
+    from atomman.tools import miller
+    for k, setting in enumerate(sorted(CONV_SITES) * ctx.n(1, 4)):
+        tab = np.asarray(miller.vector_conventional_to_primitive(np.identity(3), setting=setting), dtype=float)
+        U = [[int(round(x)) for x in row] for row in tab.tolist()]
+        if not np.allclose(tab, np.array(U)):
+            continue
+        ls = scales[(7 * k + 1) % len(scales)]
+        base, fam, spos = gen_system(rng, am, far=rng.random() < 0.3)
+        sysm = _scaled_copy(am, base, ls)
+        fam = f'{fam}, lengths x {ls!r}'
+        ctx.stats.case('oracle:p2c-direct', (setting, repr(ls), repr(sysm._c04['vects']), tuple(spos)),
+                       sample={'op': 'p2c', 'setting': setting, 'length_scale': ls, 'family': fam})
+        _oracle_rotate(ctx, am, sysm, fam, spos, U, _det3(U), U, 'centering-table', True, 'conversion-p2c',
+                       call=lambda s_: s_.dump('primitive_to_conventional', setting=setting, return_transform=True),
+                       label=f'primitive_to_conventional(setting={setting!r})', replay_extra={'p2c_setting': setting})
+
+
+def _search_site_tolerance(ctx, am):
+    """the caller's own rtol / atol for the lattice-site test (the documented way to accept lattice-site atoms that are
+    slightly off the ideal site) on crystals whose lattice-site atoms ARE slightly off: the whole crystal displaced rigidly
+    by 1e-5 .. 1e-2 of a cell (0.0001 .. 0.1 length units), atol 1.5 .. 4 times that distance. The tolerance decides
+    whether the cell is ACCEPTED, nothing else: every atom of the primitive cell still maps through the returned rotation,
+    modulo the original lattice, onto an original atom at the ROUNDING bound of the float data (exact relative coordinates
+    of the displaced crystal), not within atol. (Own random stream.)"""
+    np = _np()
+    rng = random.Random(ctx.seed * 32452843 + 605)
+    for k, setting in enumerate(sorted(CONV_SITES) * ctx.n(3, 12)):
+        case = gen_conv_case(rng, am, setting, mode='offset',
+                             orient=(None, None, 'rotated', 'lefthanded')[k % 4] if k % 3 == 0 else None)
+        sh = np.array([a / b for a, b in case['shift']])
+        dist = float(np.linalg.norm(sh @ np.array(case['vects'])))
+        atol = dist * (1.5, 4.0)[k % 2]
+        case.update(op='conversion', call_setting=setting, check_basis=(k % 3 != 2), history=[], site_atol=atol,
+                    site_rtol=(None, 1e-5, 0.0, 1e-3)[k % 4])
+        if atol > 0.2:
+            # (atol is also what the family test compares lattice constants and angles with)
+            case['check_family'] = False
+        ctx.stats.case('oracle:conversion-site-atol', (setting, repr(case['stored']), repr(atol), repr(case['vects'])),
+                       sample={'op': 'c2p->p2c', 'setting': setting, 'family': case['family'], 'atol': atol,
+                               'site_atoms_off_by': dist, 'check_basis': case['check_basis']})
+        ctx.extra['site_atol_cases'] = ctx.extra.get('site_atol_cases', 0) + 1
+        _run_conversion(ctx, am, case)
+
+
 def _run_conversion(ctx, am, case):
     np = _np()
     setting = case['setting']
@@ -3892,8 +4040,18 @@ def _run_conversion(ctx, am, case):
         if case.get('smallshift') is not None:
             # (list / tuple as stored, every third time a numpy array: "array-like object")
             kw['smallshift'] = np.array(case['smallshift']) if nb % 3 == 0 else case['smallshift']
+    if case.get('site_atol') is not None:
+        # the caller's own absolute tolerance for "an atom sits on the lattice site" (the documented way to accept
+        # lattice-site atoms that are a little off the ideal site, and the only way to state the tolerance in the cell's
+        # length unit), and / or the documented small shift of the primitive-cell cut in that unit
+        kw['atol'] = case['site_atol']
+    if case.get('site_rtol') is not None:
+        kw['rtol'] = case['site_rtol']
+    if dec is None and case.get('smallshift') is not None:
+        kw['smallshift'] = np.array(case['smallshift']) if nb % 3 == 0 else case['smallshift']
     what = (f"{case['family']} cell, setting {setting}" + (" (called with 't')" if case['call_setting'] != setting else '')
             + ('' if case['check_basis'] else ', check_basis=False')
+            + (f", lengths x {case['length_scale']!r}" if case.get('length_scale') else '')
             + (f", cell x {case['scale']} with the Cartesian coordinates rounded to {dec} decimals" if dec is not None else '')
             + (f", cell strained by 1 + {case['cell_noise']}" if case.get('cell_noise') else '')
             + (f", options {kw}" if kw else '') + f", relative positions {case['stored']}"
@@ -3923,6 +4081,17 @@ def _run_conversion(ctx, am, case):
         return
     if not np.array_equal(before, conv.atoms.pos):
         ctx.violate('conversion:input-mutated', f'conventional_to_primitive changed its input ({what})', replay)
+    # "the returned rotation": each conversion hands back a PROPER rotation (orthogonal, det +1) - through an improper one
+    # the mirror image of the crystal would map onto the original atom for atom
+    for nm, Tx in (('conventional_to_primitive', T1), ('primitive_to_conventional', T2)):
+        Tx = np.asarray(Tx, dtype=float)
+        # (1e-6: the transform is fitted to cell vectors that went through the Box.vects clean-up - orthogonal to about
+        # 1e-9 for nearly-orthogonal cells; an improper one has det -1)
+        if Tx.shape != (3, 3) or not (np.allclose(Tx @ Tx.T, np.eye(3), rtol=0, atol=1e-6) and abs(np.linalg.det(Tx) - 1) < 1e-6):
+            ctx.violate('conversion:transform-proper', f'{nm}: returned transform {Tx.tolist()} is not a proper rotation '
+                        f'(det {float(np.linalg.det(Tx)) if Tx.shape == (3, 3) else None}): the cell holds the mirror image '
+                        f'of the crystal ({what})', replay)
+            return
     if prim.natoms * NLAT[setting] != conv.natoms or abs(prim.box.volume * NLAT[setting] - conv.box.volume) > 1e-8 * conv.box.volume:
         ctx.violate('conversion:primitive-count', f'primitive cell: {prim.natoms} atoms, volume {prim.box.volume}; '
                     f'conventional {conv.natoms}, {conv.box.volume} ({what})', replay)
@@ -3990,8 +4159,10 @@ def _run_conversion(ctx, am, case):
         # original box origin that is no lattice vector its lattice points are not at its relative (0,0,0), which is
         # all the lattice-site test looks at - the documented case for switching the test off)
         try:
+            # (a smallshift given in the cell's own length unit goes with this call as well)
+            kw3 = {'smallshift': kw['smallshift']} if (dec is None and 'smallshift' in kw) else {}
             prim2, T3 = conv2.dump('conventional_to_primitive', setting=back, return_transform=True,
-                                   check_basis=False)
+                                   check_basis=False, **kw3)
         except Exception as e:  # noqa
             ctx.violate('conversion:raises', f'converting the conventional cell obtained from the primitive one back '
                         f'raised {type(e).__name__}: {e} ({what})', replay)
